@@ -2,8 +2,9 @@
    framing readers built from them, on a scripted source (optionally behind a BufReader), with
    the fuel the theorems ask for computed from the source. *)
 From Coq Require Import List NArith Arith Bool.
-From NV Require Import Io.Source Io.ReadExact Io.BufReader Io.FastaScan Io.FastaIndex.
-From NV Require Fasta.Layout Fasta.Indexer.
+From NV Require Import Io.Source Io.ReadExact Io.BufReader Io.FastaScan Io.FastaIndex Io.FastqRead Io.HeaderRead Io.BgzfRead Io.BedRead Io.TabRead.
+From NV Require Fasta.Layout Fasta.Indexer Fasta.Fastq Bgzf.Vpos Bgzf.Frame Bgzf.Reader Bgzf.ReaderOps
+  Text.TextBase Text.BedRec.
 Import ListNotations.
 
 Definition src_fuel (s : source) (n : nat) : nat :=
@@ -170,3 +171,142 @@ Definition run_index_file (cap : nat) (s : source)
   : (list Indexer.fai * option Indexer.ierr) * bsrc :=
   d_index_loop src_read cap (Datatypes.S (length (Layout.lines (s_data s))))
     (Datatypes.S (length (s_data s))) (b_fuel ([], s) 0) ([], s) 0%N.
+
+(* fastq::io::Reader::read_record until Ok(0) or an error, on a scripted source behind a BufReader *)
+Definition run_fastq (cap : nat) (s : source) : (list Fastq.qrec * option Fastq.qerr) * bsrc :=
+  d_read_qrecs src_read cap (Datatypes.S (length (s_data s))) (b_fuel ([], s) 0) ([], s).
+
+(* fastq::io::Indexer::index_record until Ok(None) or an error (fastq::fs::index) *)
+Definition run_fastq_index (cap : nat) (s : source) : (list Fastq.qfai * option Fastq.qerr) * bsrc :=
+  d_index_qrecs src_read cap (Datatypes.S (length (s_data s))) (b_fuel ([], s) 0) ([], s) 0%N.
+
+(* sam / vcf Reader::header_reader() driven by read_until(LF) until it returns 0, then the rest of
+   the underlying reader line by line (the records): header lines, status, record lines *)
+Definition run_header (prefix : N) (cap : nat) (s : source)
+  : list (list N) * ures * nat * list (list N) * bsrc :=
+  match h_raw_lines src_read cap prefix (Datatypes.S (length (s_data s))) (b_fuel ([], s) 0) true ([], s) with
+  | (hl, r, _, st1) =>
+    let '(ls, st2) := read_until_all cap (Datatypes.S (length (s_data s))) st1 in
+    (hl, r, length (s_data s) - b_left st1, ls, st2)
+  end.
+
+(* results of the imported models in one C12-owned shape (the extracted constructor names of three
+   different [res] types would otherwise depend on extraction order):
+   code 0 InvalidInput, 1 InvalidData, 2 UnexpectedEof, 3 OutOfFuel, 4 WriteZero *)
+Inductive cres (A : Type) := COk (a : A) | CErr (code : nat) | CPanic.
+Arguments COk {A} a.
+Arguments CErr {A} code.
+Arguments CPanic {A}.
+
+Definition of_frame_res {A} (r : Bgzf.Frame.res A) : cres A :=
+  match r with
+  | Bgzf.Frame.Ok a => COk a
+  | Bgzf.Frame.Err Bgzf.Frame.InvalidInput => CErr 0
+  | Bgzf.Frame.Err Bgzf.Frame.InvalidData => CErr 1
+  | Bgzf.Frame.Err Bgzf.Frame.UnexpectedEof => CErr 2
+  | Bgzf.Frame.Err Bgzf.Frame.WriteZero => CErr 4
+  | Bgzf.Frame.Panic => CPanic
+  end.
+
+Definition of_text_res {A} (r : TextBase.res A) : cres A :=
+  match r with
+  | TextBase.Ok a => COk a
+  | TextBase.Err TextBase.InvalidInput => CErr 0
+  | TextBase.Err TextBase.InvalidData => CErr 1
+  | TextBase.Err TextBase.UnexpectedEof => CErr 2
+  | TextBase.Err TextBase.OutOfFuel => CErr 3
+  | TextBase.Panic => CPanic
+  end.
+
+(* ---- bgzf::io::Reader over a delivered source, composed with C02's position state machine:
+   the frames fetched (raw source when cap = 0, else behind a BufReader of capacity cap) are parsed
+   and handed to ReaderOps; the caller loop is fill_buf / consume(whole slice) until an empty slice.
+   Observed: (compressed offset of the block, its data) per non-empty block, Reader::position(). *)
+Fixpoint ops_blocks (k : nat) (st : Bgzf.ReaderOps.state) : list (N * list N) * Bgzf.ReaderOps.state :=
+  match k with
+  | 0 => ([], st)
+  | Datatypes.S k' =>
+    match Bgzf.ReaderOps.fill_buf st with
+    | (st1, Bgzf.Vpos.Ok (x :: src)) =>
+        let '(bl, st2) := ops_blocks k' (Bgzf.ReaderOps.consume st1 (Bgzf.ReaderOps.len (x :: src))) in
+        ((Bgzf.ReaderOps.bpos st1, x :: src) :: bl, st2)
+    | (st1, _) => ([], st1)
+    end
+  end.
+
+Definition run_bgzf (inflate : list N -> N -> option (list N)) (cap : nat) (s : source)
+  : list (N * list N) * N * cres unit :=
+  let k := Datatypes.S (length (s_data s)) in
+  let '(fs, r) :=
+    match cap with
+    | 0 => fst (d_read_frames src_read inflate k (src_fuel s 18) s)
+    | _ => fst (d_read_frames (br_read src_read cap) inflate k (b_fuel ([], s) 18) ([], s))
+    end in
+  let '(bl, st) := ops_blocks k (Bgzf.ReaderOps.init fs) in
+  (bl, Bgzf.ReaderOps.position st, of_frame_res r).
+
+Definition whole_bgzf (inflate : list N -> N -> option (list N)) (data : list N)
+  : list (N * list N) * N * cres unit :=
+  let k := Datatypes.S (length data) in
+  let '(fs, r) := whole_frames inflate k data in
+  let '(bl, st) := ops_blocks k (Bgzf.ReaderOps.init fs) in
+  (bl, Bgzf.ReaderOps.position st, of_frame_res r).
+
+(* bed::io::Reader::<N>::read_record into ONE reused record until Ok(0) (going on after errors), at
+   most j calls, on a scripted source behind a BufReader *)
+Definition run_bed (n j cap : nat) (s : source)
+  : list (TextBase.res nat * BedRec.bed_view) * bsrc :=
+  d_bed_read_raw src_read cap j n (src_fuel s 0) (b_fuel ([], s) 1) ([], s) (BedRec.bed_default n).
+
+(* the same observations in C12's own result shape, for printing *)
+Record bedv := mkbedv {
+  v_name : cres (list N); v_start : cres N; v_end : cres (option N);
+  v_nm : option (cres (option (list N))); v_others : cres (list (list N)) }.
+
+Definition bedv_of (v : BedRec.bed_view) : bedv :=
+  mkbedv (of_text_res (BedRec.bv_name v)) (of_text_res (BedRec.bv_start v)) (of_text_res (BedRec.bv_end v))
+         (match BedRec.bv_nm v with Some r => Some (of_text_res r) | None => None end)
+         (of_text_res (BedRec.bv_others v)).
+
+Definition run_bed_obs (n j cap : nat) (s : source) : list (cres nat * bedv) :=
+  map (fun e => (of_text_res (fst e), bedv_of (snd e))) (fst (run_bed n j cap s)).
+
+(* ---- lazy SAM / VCF record readers: read_record until Ok(0) or the first error *)
+Section TabLoop.
+  Context {St : Type}.
+  Variable step : St -> TextBase.res nat * list N * list nat * St.
+  Fixpoint tab_loop (j : nat) (st : St) : list (TextBase.res nat * list N * list nat) * St :=
+    match j with
+    | 0 => ([], st)
+    | Datatypes.S j' =>
+      let '(r, b, e, st1) := step st in
+      match r with
+      | TextBase.Ok (Datatypes.S _) => let '(l, st2) := tab_loop j' st1 in ((r, b, e) :: l, st2)
+      | _ => ([(r, b, e)], st1)
+      end
+    end.
+End TabLoop.
+
+Definition run_sam_records (cap : nat) (s : source) :=
+  tab_loop (d_sam_read_record src_read cap (b_fuel ([], s) 1)) (Datatypes.S (length (s_data s))) ([], s).
+Definition run_vcf_records (cap : nat) (s : source) :=
+  tab_loop (d_vcf_read_record src_read cap (b_fuel ([], s) 1)) (Datatypes.S (length (s_data s))) ([], s).
+
+(* printing shape: (result, buffer, field ends) per call, bytes consumed at the end *)
+Definition tab_obs (total : nat) (x : list (TextBase.res nat * list N * list nat) * bsrc)
+  : list (cres nat * list N * list nat) * nat :=
+  (map (fun e => (of_text_res (fst (fst e)), snd (fst e), snd e)) (fst x), total - b_left (snd x)).
+Definition run_sam_obs (cap : nat) (s : source) := tab_obs (length (s_data s)) (run_sam_records cap s).
+Definition run_vcf_obs (cap : nat) (s : source) := tab_obs (length (s_data s)) (run_vcf_records cap s).
+
+(* the raw slices the lazy vcf::Record accessors return for a record that was read Ok:
+   reference_sequence_name, ids, reference_bases, alternate_bases, filters, info ("." reads as "") *)
+Definition vslice (buf : list N) (a b : nat) : list N := firstn (b - a) (skipn a buf).
+Definition vmiss (s : list N) : list N := match s with [46%N] => [] | _ => s end.
+Definition vcf_view (buf : list N) (ends : list nat) : list (list N) :=
+  let e i := nth i ends 0 in
+  [ vslice buf 0 (e 0); vmiss (vslice buf (e 1) (e 2)); vslice buf (e 2) (e 3);
+    vmiss (vslice buf (e 3) (e 4)); vmiss (vslice buf (e 5) (e 6)); vmiss (vslice buf (e 6) (e 7)) ].
+Definition run_vcf_view_obs (cap : nat) (s : source) :=
+  let '(l, pos) := run_vcf_obs cap s in
+  (map (fun x => (fst (fst x), vcf_view (snd (fst x)) (snd x))) l, pos).
